@@ -19,6 +19,7 @@ RULE = (
     "root = soma), branching limit, total length = own Kruskal MST when bf = 0 and no limit, parent relation = reference greedy "
     "(attach the pair (connected unsaturated i, unconnected j) minimising d(i,j) + bf * path(i)). Ties (two candidate costs closer "
     "than 1e-9) make the specification ambiguous and are skipped by the reference, never tolerated. "
+    "History space: one builder instance applied to cloud A, cloud B, A again and A after an in-place edit, earlier trees re-judged. "
     "Non-trivial = every case (>= 2 points); distinct = distinct (bank, root, subset) / (cloud, configuration)."
 )
 ASSUMPTIONS = [
@@ -221,6 +222,7 @@ def check_small(case, R):
     arr = np.array(pts, dtype=np.float64)
     inputs = {"first": lambda: (arr.copy(), None), "soma": lambda: (arr[1:].copy(), arr[0].copy())}
     trees = set()
+    kept = []
     for bf in BFS_Q if tg == "q" else BFS_T:
         for k in LIMITS:
             for excl in (True, False):
@@ -234,6 +236,7 @@ def check_small(case, R):
                         what = f"PointsToCuntzMST(bf={bf}, furcations={k}, exclude_soma={excl}, sort={sort})(points, soma={'given' if soma is not None else None})"
                         ok, t = R.impl("PointsToCuntzMST", lambda: PointsToCuntzMST(bf=bf, furcations=k, exclude_soma=excl, sort=sort)(P, soma))
                         if ok:
+                            kept.append((what, t, build.snapshot(t)))
                             got = judge(R, what, "cuntz", pts, D, t, bf, k, excl, want, mst_len)
                             if got:
                                 trees.add(tuple(got))
@@ -242,10 +245,96 @@ def check_small(case, R):
                             what = f"PointsToMST(furcations={k}, exclude_soma={excl}, sort={sort})(points, soma={'given' if soma is not None else None})"
                             ok, t = R.impl("PointsToMST", lambda: PointsToMST(k, exclude_soma=excl, sort=sort)(P, soma))
                             if ok:
+                                kept.append((what, t, build.snapshot(t)))
                                 judge(R, what, "mst", pts, D, t, 0.0, k, excl, want, mst_len)
     R.outcome(n, len(trees))
     for tr in trees:
         R.outcome(n, ref_shape(tr))
+    recheck_kept(R, kept)
+
+
+def recheck_kept(R, kept):
+    """Every tree obtained in this case still has the content it was returned with (and the last two are retained)."""
+    for what, t, snap in kept:
+        R.check(build.snapshot(t) == snap, "result-changed-by-later-calls", lambda: f"{what}: the returned tree changed after later library calls",
+                "result-changed-by-later-calls")
+    for what, t, _ in kept[-2:]:
+        R.retain(what.split("(")[0], lambda v=t: build.snapshot(v))
+
+
+HISTORY_INSTANCES = ("cuntz(bf=0.5,k=2)", "cuntz(bf=0.2,k=-1,unsorted)", "cuntz(bf=1,k=1,root-limited)", "mst(k=2)", "mst(k=-1,unsorted)")
+
+
+def history_pool():
+    """(root, subset, soma mode): clouds of 2..6 points, several of each size."""
+    out = []
+    for root in (0, 3, 7):
+        ring = [(root + 1 + i) % 9 for i in range(8)]
+        for m in (1, 2, 3, 4, 5):
+            out.append((root, tuple(ring[:m]), "first" if (root + m) % 2 else "soma"))
+    for root in (1, 5):
+        ring = [(root - 1 - i) % 9 for i in range(8)]
+        for m in (2, 4):
+            out.append((root, tuple(ring[:m]), "soma" if (root + m) % 2 else "first"))
+    return out
+
+
+def check_history(case, R):
+    """One builder instance applied to cloud A, cloud B, A again, then A edited in place: every tree is judged when returned and
+    the earlier ones again after the later calls."""
+    from swcgeom.transforms import PointsToCuntzMST, PointsToMST
+
+    bk, kind, seq = case[0], case[1], [(c[0], list(c[1]), c[2]) for c in case[2]]
+    R.state(bk, kind, seq)
+    inst, klass, bf, k, excl = {
+        "cuntz(bf=0.5,k=2)": lambda: (PointsToCuntzMST(bf=0.5, furcations=2), "cuntz", 0.5, 2, True),
+        "cuntz(bf=0.2,k=-1,unsorted)": lambda: (PointsToCuntzMST(bf=0.2, furcations=-1, sort=False), "cuntz", 0.2, -1, True),
+        "cuntz(bf=1,k=1,root-limited)": lambda: (PointsToCuntzMST(bf=1.0, furcations=1, exclude_soma=False), "cuntz", 1.0, 1, False),
+        "mst(k=2)": lambda: (PointsToMST(2), "mst", 0.0, 2, True),
+        "mst(k=-1,unsorted)": lambda: (PointsToMST(-1, sort=False), "mst", 0.0, -1, True),
+    }[kind]()
+    B = bank(bk)
+    clouds = []
+    for root, sub, mode in seq:
+        arr = np.array([B[root]] + [B[i] for i in sub], dtype=np.float64)
+        clouds.append([arr, mode])
+
+    def run(step, arr, mode, note):
+        pts = [tuple(float(v) for v in row) for row in arr]
+        if len({tuple(build.f32(v) for v in q) for q in pts}) != len(pts):
+            R.skip("points-coincide-in-float32")
+            return None
+        D = dist_matrix(pts)
+        want, why = greedy(D, bf, k, excl)
+        if want is None:
+            R.skip(f"reference-{why}")
+            return None
+        what = f"history[{kind}] call {step} ({note}) on {pts}, soma {mode}"
+        P, soma = (arr, None) if mode == "first" else (arr[1:], arr[0])
+        ok, t = R.impl(f"history:{klass}", lambda: inst(P, soma))
+        if not ok:
+            return None
+        got = judge(R, what, f"history:{klass}", pts, D, t, bf, k, excl, want, kruskal_length(D))
+        if got:
+            R.outcome(len(pts), ref_shape(got))
+        return (what, pts, D, t, want, build.snapshot(t))
+
+    live = []
+    order = list(range(len(clouds))) + [0]
+    for step, j in enumerate(order):
+        rec = run(step + 1, clouds[j][0], clouds[j][1], "first input again" if step == len(order) - 1 else f"input {j + 1}")
+        if rec:
+            live.append(rec)
+    for what, pts, D, t, want, snap in live[:-1]:
+        if not R.check(build.snapshot(t) == snap, "result-changed-by-later-calls", f"{what}: tree changed after later calls of the same instance",
+                       "history:result-changed-by-later-calls"):
+            judge(R, what + " [re-judged after later calls]", f"history:{klass}", pts, D, t, bf, k, excl, want, kruskal_length(D))
+    # edit the first cloud in place (move its last point): the same instance must build the tree of the new cloud
+    arr, mode = clouds[0]
+    arr[-1] += (0.37, -0.21, 0.45)
+    run(len(order) + 1, arr, mode, "first input after moving its last point in place")
+    if live:
+        R.retain(f"history[{kind}]", lambda v=live[0][3]: build.snapshot(v))
 
 
 def ref_shape(par):
@@ -333,7 +422,24 @@ def spaces(tier, seed):
                     for sub in itertools.combinations(others, m):
                         yield (bk, root, sub, tg)
 
+    hpool = history_pool()
+
+    def gen_history():
+        for bk in banks:
+            for kind in HISTORY_INSTANCES:
+                for a in hpool:
+                    for b in hpool:
+                        yield (bk, kind, (a, b))
+            if not q:
+                small = [c for c in hpool if len(c[1]) <= 2]
+                for kind in HISTORY_INSTANCES:
+                    for tr in itertools.product(small, repeat=3):
+                        yield (bk, kind, tr)
+
     return [
+        Space.of("history", gen_history, check_history,
+                 bounds={"banks": list(banks), "instances": list(HISTORY_INSTANCES), "pool": len(hpool),
+                         "sequences": "every ordered pair (A, B) of pool clouds: A, B, A again, A edited in place" + ("" if q else "; every ordered triple of the clouds with <= 3 points")}),
         Space.of("cloud", lambda: list(CLOUD_CONFIGS_Q if q else CLOUD_CONFIGS_T), check_cloud,
                  bounds={"clouds": "deterministic LCG clouds in [0,10)^3, 3 decimals", "sizes": [60, 200] if q else [60, 120, 200, 400],
                          "configurations": len(CLOUD_CONFIGS_Q if q else CLOUD_CONFIGS_T)}),
